@@ -448,6 +448,45 @@ extern "C" fn mock_cond_timedwait(
     libc::ETIMEDOUT
 }
 
+extern "C" fn mock_cond_signalled(
+    _c: *mut libc::pthread_cond_t,
+    _m: *mut libc::pthread_mutex_t,
+    _abstime: *const libc::timespec,
+) -> c_int {
+    unsafe { COND_CALLS += 1 };
+    0
+}
+
+/// EVERY valid deadline that lies in the future - however far: any tv_sec up to i64::MAX, whose nanosecond count does not fit
+/// 64 bits - is treated as a future deadline: the hook hands the wait to the native call (which is signalled at once here)
+/// and returns its 0; it never reports ETIMEDOUT without having waited.
+#[kani::proof]
+#[kani::unwind(6)]
+#[kani::stub(crate::common::now, vnow)]
+#[kani::stub(crate::net::EventLoops::wait_event, wait_event_stub)]
+fn c14_cond_timedwait_far_deadline_is_in_the_future() {
+    let now0: u64 = kani::any();
+    kani::assume(now0 < 4_000_000_000); // (as above: keeps the / 1e9 of the slice computation tractable)
+    let sec: libc::time_t = kani::any();
+    let nsec: libc::c_long = kani::any();
+    kani::assume(sec >= 5);
+    kani::assume((0..=999_999_999).contains(&nsec));
+    reset(now0);
+    unsafe {
+        COND_CALLS = 0;
+    }
+    let f: extern "C" fn(*mut libc::pthread_cond_t, *mut libc::pthread_mutex_t, *const libc::timespec) -> c_int =
+        mock_cond_signalled;
+    let ts = libc::timespec { tv_sec: sec, tv_nsec: nsec };
+    let r = pthread_cond_timedwait(Some(&f), std::ptr::null_mut(), std::ptr::null_mut(), &raw const ts);
+    unsafe {
+        kani::assert(COND_CALLS == 1, "a deadline in the future is waited for through the native call");
+        kani::assert(r == 0, "the native call's result (signalled) is returned");
+    }
+    kani::cover!(sec >= 18_446_744_074, "deadline beyond 2^64 ns");
+    kani::cover!(sec == libc::time_t::MAX, "largest tv_sec");
+}
+
 /// Nobody signals: for every deadline within 25 ms of "now" the call returns ETIMEDOUT, and not
 /// before the deadline; deadlines in the past return ETIMEDOUT at once; invalid timespecs EINVAL.
 #[kani::proof]
